@@ -3961,9 +3961,10 @@ static CMDResult CMD_DefSymbol(Boolean Negate, char const* Arg) {
             strmaxcpy(Part, Copy, STRINGSIZE);
             strmov(Copy, p + 1);
         }
-        if (!CaseSensitive) {
-            UpString(Part);
-        }
+        /* (no case folding here: whether names are case sensitive is only known when all
+           options have been read - '-D foo -U' defined FOO; the symbol table folds the
+           name when the symbol is entered) */
+
         p = QuotPos(Part, '=');
         if (!p) {
             strmaxcpy(Name, Part, STRINGSIZE);
